@@ -9,7 +9,7 @@
 (* operators over an operand grid (MCNum.tla) and (ii) evaluated by TLC on *)
 (* calls recorded from the real classes (TraceArith.tla).                  *)
 (***************************************************************************)
-EXTENDS Props
+EXTENDS Props, BigNum
 
 (* r = floor(x / y) for y # 0, stated without division (floor toward minus infinity, as Python's //) *)
 IsFloorDiv(r, x, y) == IF y > 0 THEN r * y <= x /\ x - r * y < y          \* (not (r+1)*y: that product may leave 32 bits)
@@ -79,8 +79,35 @@ PrintLaw(R) ==
      /\ (R.cls = "guarded" /\ R.dEff > R.p => R.str.fd = R.p /\ R.str.gfd = R.dEff - R.p)
      /\ (~(R.cls = "guarded" /\ R.dEff > R.p) => R.str.gfd = 0)
 
+(* ---------- the same laws on operands of any size (limb-encoded records: R.big = TRUE) ---------- *)
+BEffRnd(R) == IF R.cls = "guarded" /\ R.g > 0 THEN "down" ELSE IF R.rnd = "up" THEN "up" ELSE "down"
+BigCmpWant(R) ==
+  IF R.cls = "guarded"
+  THEN LET e == BLt(BAbs(BSub(R.a, R.b)), R.gepsb) IN
+       <<~e /\ BLt(R.a, R.b), e \/ BLt(R.a, R.b), e, ~e, ~e /\ BLt(R.b, R.a), e \/ BLt(R.b, R.a)>>
+  ELSE <<BLt(R.a, R.b), BLe(R.a, R.b), BEq(R.a, R.b), ~BEq(R.a, R.b), BLt(R.b, R.a), BLe(R.b, R.a)>>
+BigLaw(R) ==
+  CASE R.op = "add"    -> BEq(R.r, BAdd(R.a, R.b))
+    [] R.op = "sub"    -> BEq(R.r, BSub(R.a, R.b))
+    [] R.op = "neg"    -> BEq(R.r, BNeg(R.a))
+    [] R.op = "abs"    -> BEq(R.r, BAbs(R.a))
+    [] R.op = "mulint" -> BEq(R.r, BMul(R.a, R.b))
+    [] R.op = "floordivint" -> ~BIsZero(R.b) /\ BIsFloorDiv(R.r, R.a, R.b)
+    [] R.op = "mul"    -> BIsRounded(R.r, BMul(R.a, R.b), R.Sb, BEffRnd(R))
+    [] R.op = "div"    -> ~BIsZero(R.b) /\ BIsRounded(R.r, BMul(R.a, R.Sb), R.b, BEffRnd(R))
+    [] R.op = "muldiv" -> ~BIsZero(R.c) /\ BIsRounded(R.r, BMul(R.a, R.b), R.c, BEffRnd(R))
+    [] R.op = "cmp"    -> R.flags = BigCmpWant(R)
+    [] R.op = "str"    -> R.unchanged /\ BIsFloorDiv(R.pu, BAdd(BMul(BMul(BSmall(2), R.a), R.Db), R.Sb), BMul(BSmall(2), R.Sb)) /\ R.digits_ok
+    [] OTHER -> FALSE
+BigFails(R) ==
+  (IF R.same_cls THEN {} ELSE {"C12:result_class"}) \cup
+  (IF BigLaw(R) THEN {}
+   ELSE {(IF R.op = "str" THEN (IF R.a.neg THEN "C14:KNOWN_F8" ELSE "C14:print_big")
+          ELSE IF R.op = "cmp" /\ R.cls = "guarded" THEN "C13:big_cmp" ELSE IF R.cls = "guarded" THEN "C13:g_big_" \o R.op ELSE "C12:big_" \o R.op)})
+
 Negative(R) == IF R.cls = "rational" THEN R.a[1] < 0 ELSE R.a < 0
 NumFails(R) ==
+  IF R.big THEN BigFails(R) ELSE
   IF R.op = "str"
   THEN (IF ~R.unchanged THEN {"C14:value_changed"} ELSE {}) \cup
        (IF PrintLaw(R) THEN {} ELSE IF Negative(R) THEN {"C14:KNOWN_F8"} ELSE {"C14:print"})
